@@ -1235,6 +1235,10 @@ func exprName(v ssa.Value) string {
 		if a, ok := u.X.(*ssa.Alloc); ok && a.Comment != "" {
 			return a.Comment
 		}
+		// a package-level function variable (var timeNow = time.Now) is known by its name
+		if g, ok := u.X.(*ssa.Global); ok {
+			return g.Name()
+		}
 	}
 	return v.Name()
 }
